@@ -104,6 +104,7 @@ class World(WsWorld):
             conn.k, conn.e, conn.peer, conn.p2e = k, e, peer, p2e
             conn.to_send = self.client_request_bytes()
             conn.started = conn.dropped = False
+            conn.limit = None
             conn.expect_admit = None
             conn.pending = None
             conn.decided = None
@@ -114,7 +115,27 @@ class World(WsWorld):
         self.mutation = "limit"
         self.verdict = "n/a"
         self.max_open_seen = 0
+        # the application may change the limit while connections exist (0 lifts it): the new value is in force for every
+        # handshake processed from then on
+        self.reconf_left = ch.choose(3, "n-limit-reconfigurations", (5, 2, 1))
         self.run.log("cfg", "limit", sorted((k, repr(v)) for k, v in cfg.items()))
+
+    def eff_limit(self, conn=None):
+        # setProtocolOptions() sets the defaults for *new* protocol instances: a connection is judged by the limit in
+        # force when it was accepted
+        lim = self.cfg["maxConn"] if conn is None or conn.limit is None else conn.limit
+        return lim or 10 ** 9
+
+    def limit_reconfigure(self):
+        self.reconf_left -= 1
+        new = self.run.ch.pick((0, 1, 2, 3, 5), "new-maxConnections", (3, 1, 1, 1, 1))
+        self.run.fault("limit:reconfigured")
+        self.run.log("app", "setProtocolOptions(maxConnections=%d)" % new, "was", self.cfg["maxConn"])
+        self.limit_lowered = True  # (connections accepted under different limits coexist from now on)
+        self.fw.call(self, lambda: self.fac.setProtocolOptions(maxConnections=new))
+        self.cfg["maxConn"] = new
+
+    limit_lowered = False
 
     def live(self):
         """connections the factory has accepted and not yet lost"""
@@ -125,9 +146,9 @@ class World(WsWorld):
         live = self.live()
         conn.decided = "admit"
         self.run.log("limit", "admitted", conn.k, "live", live)
-        if live > self.cfg["maxConn"]:
+        if live > self.eff_limit(conn):
             self.run.violate(self.P + ".accept-iff-valid", "invalid-request-accepted:over-connection-limit",
-                             "connection %d admitted with %d connections alive, maxConnections=%d" % (conn.k, live, self.cfg["maxConn"]))
+                             "connection %d admitted with %d connections alive, maxConnections=%d" % (conn.k, live, self.eff_limit(conn)))
         if self.cfg["async"][conn.k]:
             conn.pending = self.fw.new_future(self)
             self.run.probe("limit:onConnect-pending")
@@ -145,9 +166,9 @@ class World(WsWorld):
             live = self.live()
             conn.decided = "refuse"
             self.run.log("limit", "refused", conn.k, "live", live)
-            if live <= self.cfg["maxConn"]:
+            if live <= self.eff_limit(conn):
                 self.run.violate(self.P + ".accept-iff-valid", "valid-request-rejected:below-connection-limit",
-                                 "connection %d refused with %d connections alive, maxConnections=%d" % (conn.k, live, self.cfg["maxConn"]))
+                                 "connection %d refused with %d connections alive, maxConnections=%d" % (conn.k, live, self.eff_limit(conn)))
 
     def limit_actions(self):
         acts = []
@@ -163,10 +184,13 @@ class World(WsWorld):
             if conn.pending is not None:
                 acts.append((2.5, "resolve-onConnect:%d" % k, lambda conn=conn: self.limit_resolve(conn)))
             acts.append((0.6, "peer-drop:%d" % k, lambda conn=conn: self.limit_drop(conn)))
+        if self.reconf_left > 0 and any(c.started for c in self.conns):
+            acts.append((1.0, "app-changes-maxConnections", self.limit_reconfigure))
         return acts
 
     def limit_accept(self, conn):
         conn.started = True
+        conn.limit = self.cfg["maxConn"]
         self.eps.append(conn.e)
         self.pipes.append((conn.p2e, conn.e))
         self.start(conn.e)
@@ -193,7 +217,7 @@ class World(WsWorld):
     def limit_invariant(self):
         n_open = len([c for c in self.conns if c.started and c.e.p._st in (3, 2)])
         self.max_open_seen = max(self.max_open_seen, n_open)
-        if n_open > self.cfg["maxConn"] and not getattr(self, "_limit_bad", False):
+        if n_open > self.eff_limit() and not self.limit_lowered and not getattr(self, "_limit_bad", False):
             self._limit_bad = True
             self.run.violate(self.P + ".accept-iff-valid", "more-peers-admitted-than-maxConnections",
                              "%d open at once, maxConnections=%d" % (n_open, self.cfg["maxConn"]))
